@@ -388,6 +388,29 @@ pub const SHAPES: &[&str] = &[
     "dag-records",
     "dag-variants-in-func",
     "empty-delimiters",
+    "odd-package",
+    "flat-alias-chain",
+];
+
+/// Valid but hand-shaped components (no toolchain emits them) with the document that
+/// drives each through the pipeline; package name `ns:a`. Found by a sub-agent probing the
+/// unmodified tree by hand (DESIGN 11.12): each one crashed the decoder's consumers, the
+/// aggregator or the encoder. The repaired ones stay here as regression inputs, the open
+/// ones are listed in known_findings.json.
+pub const ODD_PACKAGES: &[(&str, &str, &str)] = &[
+    ("resource-of-plain-instance-as-type-import", include_str!("../odd/f1.wat"), include_str!("../odd/f1.wac")),
+    ("nested-instance-aliases-parent-resource", include_str!("../odd/f2.wat"), include_str!("../odd/f2.wac")),
+    ("nested-instance-with-parent-id", include_str!("../odd/f3.wat"), include_str!("../odd/f3.wac")),
+    ("nested-instance-reexports-outer-resource", include_str!("../odd/f4.wat"), include_str!("../odd/f4.wac")),
+    ("world-use-of-plain-instance-targets", include_str!("../odd/f5.wat"), include_str!("../odd/f5.wac")),
+    ("interface-use-of-plain-instance", include_str!("../odd/f6.wat"), include_str!("../odd/f6.wac")),
+    ("instance-aliases-root-resource", include_str!("../odd/f7.wat"), include_str!("../odd/f7.wac")),
+    ("component-aliases-root-resource", include_str!("../odd/f8.wat"), include_str!("../odd/f8.wac")),
+    ("semver-track-reexports-resource", include_str!("../odd/f9.wat"), include_str!("../odd/f9.wac")),
+    ("instance-type-shared-by-plain-and-id-names", include_str!("../odd/f10.wat"), include_str!("../odd/f10.wac")),
+    ("instance-type-shared-by-plain-and-id-names-use", include_str!("../odd/f10.wat"), include_str!("../odd/f10b.wac")),
+    ("instance-type-export-as-world-item", include_str!("../odd/h1f1.wat"), include_str!("../odd/h1f1.wac")),
+    ("instance-type-export-used", include_str!("../odd/h1f1.wat"), include_str!("../odd/h1f2.wac")),
 ];
 
 /// Every bracketed list of the grammar with nothing (or only a separator) inside.
@@ -427,8 +450,14 @@ const EMPTY_FORMS: &[&str] = &[
     "package a:b targets ;",
 ];
 
-fn shape(t: &mut Tape) -> (String, String, Pkgs) {
-    let which = *t.pick(SHAPES);
+fn shape(t: &mut Tape, force_odd: Option<usize>) -> (String, String, Pkgs) {
+    let which = match force_odd {
+        Some(_) => {
+            let pos = SHAPES.iter().position(|s| *s == "odd-package").unwrap_or(0);
+            SHAPES[t.draw_preset(SHAPES.len() as u64, pos as u64) as usize]
+        }
+        None => *t.pick(SHAPES),
+    };
     let n = *t.pick(DEPTHS);
     let lib: Pkgs = library()
         .iter()
@@ -576,6 +605,30 @@ fn shape(t: &mut Tape) -> (String, String, Pkgs) {
                 s.push_str(&format!("record t{i} {{ a: t{}, b: t{} }}\n", i - 1, i - 1));
             }
             s.push_str(&format!("type f = func() -> t{m};\nimport g: func(x: t{m});\n"));
+            (s, Vec::new())
+        }
+        "odd-package" => {
+            let k = match force_odd {
+                Some(k) => t.draw_preset(ODD_PACKAGES.len() as u64, k as u64) as usize,
+                None => t.index(ODD_PACKAGES.len()),
+            };
+            let (name, wat_text, doc) = ODD_PACKAGES[k];
+            let bytes = wat::parse_str(wat_text).unwrap_or_default();
+            return (
+                format!("odd-package-{name}:{n}"),
+                doc.to_string(),
+                vec![("ns:a".into(), None, Arc::new(bytes))],
+            );
+        }
+        "flat-alias-chain" => {
+            // a long chain of aliases at syntactic depth 2 (the parser's nesting limit does
+            // not apply): type a1 = a0; type a2 = a1; ... inside an interface
+            let mut s = String::from(head);
+            s.push_str("interface i {\n    type a0 = list<u8>;\n");
+            for i in 1..n.min(60_000) {
+                s.push_str(&format!("    type a{i} = a{};\n", i - 1));
+            }
+            s.push_str("}\n");
             (s, Vec::new())
         }
         "empty-delimiters" => {
@@ -1115,15 +1168,20 @@ fn run_inner(run: &mut Run) {
     }
     run.cover("modes", "sampled");
     let t = &mut *run.tape;
-    let mode = t.draw(10);
+    // the first sampled runs visit every odd package once, fault-free
+    let force_odd = if (run.index as usize) < ODD_PACKAGES.len() { Some(run.index as usize) } else { None };
+    let mode = match force_odd {
+        Some(_) => t.draw_preset(10, 0),
+        None => t.draw(10),
+    };
     if mode < 2 {
         // shape corpus (in memory), optionally with one fault on top
-        let (label, src, pkgs) = shape(t);
+        let (label, src, pkgs) = shape(t, force_odd);
         let mut source = src.into_bytes();
         let mut packages = to_versions(&pkgs);
         t.event(format!("shape {label}: source {} bytes, {} packages", source.len(), packages.len()));
         let mut fired = Vec::new();
-        if t.chance(1, 3) {
+        if force_odd.is_none() && t.chance(1, 3) {
             let mut tree = Tree::default();
             tree.file("src", source.clone());
             for (i, (_, _, b)) in packages.iter().enumerate() {
